@@ -32,7 +32,7 @@ P = {
     "coq_targets": ["Properties/C20.vo", "Run/Eval_C20.vo"],
     "theorems_module": "Properties.C20",
     "theorems": ["C20_load_meets_spec", "C20_env_order_independent", "C20_env_wins_per_leaf", "C20_defaults_fill",
-                 "C20_file_env_equivalent", "C20_file_env_equivalent_splits", "C20_env_name_read_back", "C20_merge_later_wins_no_panic", "C20_merge_panic_iff", "C20_in_scope_b_sound",
+                 "C20_file_env_equivalent", "C20_file_env_equivalent_splits", "C20_env_name_read_back", "C20_merge_later_wins_no_panic", "C20_merge_panic_iff", "C20_in_scope_b_sound", "C20_guard_F4n_narrower",
                  "C20_domain_nonvacuous", "C20_split_example", "C20_schema_loader_agree", "C20_tables_agree_accept_equal",
                  "C20_schema_loader_accept_equal",
                  "C20_F1_refuted", "C20_F1_rows_all_disagree", "C20_F3_pinned_refuted", "C20_F3_repaired_on_witness", "C20_F4_refuted"],
@@ -45,7 +45,7 @@ P = {
         "name": "schema", "pkg": "./internal/rules/mechanisms", "test": "TestVerifC20Schema",
         "overlay": {"internal/rules/mechanisms/zz_verif_c20_schema_test.go": "c20/c20_schema_test.go"},
         "eval_module": "Run.Eval_C20", "check_term": "check_schema fixed_F1a fixed_F1b",
-        "n_quick": 0, "n_thorough": 0, "findings": {6: "C20-F6"}, "env": {"VERIF_C20_PROBES": PROBES},
+        "n_quick": 0, "n_thorough": 0, "findings": {1: "C20-F1d", 6: "C20-F6"}, "env": {"VERIF_C20_PROBES": PROBES},
         "escalate": False,
     }],
     "generators": [gen_schema_tables],
@@ -55,11 +55,18 @@ P = {
         "eval_module": "Run.Eval_C20", "check_term": "check_meta",
         "n_quick": 120, "n_thorough": 1500, "findings": {4: "C20-F4", 5: "C20-F5", 6: "C20-F6"}, "escalate": False, "shard": 10,
     },
-    "rule": "generated configurations (1-3 top-level fields, maps/lists/scalars nested up to depth 4, 27 scalar texts incl. "
+    "rule": "three streams.  (meta, model-free) real config.NewConfiguration with validator, real Configuration struct, defaults and "
+            "hooks: for example_config.yaml, test_config.yaml and four inline configurations, random subsets of the nameable leaves are "
+            "moved to the environment; the three related loads all-file / split / all-env are compared by reflect.DeepEqual of the "
+            "decoded Configuration (corpus: the auditor's three asymmetries).  (schema) ~180 probes derived from the regenerated "
+            "schema/loader tables (types, config objects, options incl. nested ones, enums, ranges, duration and non-empty classes, "
+            "unknown and missing options) through the real ValidateConfig and the real mechanism loader.  (tree) generated configurations (1-3 top-level fields, maps/lists/scalars nested up to depth 4, 27 scalar texts incl. "
             "0123/1e3/0x10/quoted) with every leaf assigned to a temporary YAML file or to the process environment (modes allfile/"
             "allenv/split/conflict/malformed), optional defaults tree, name variants (case, leading zeros, __ for _), shuffled "
             "enumeration order; loaded through the real parser.New(...).Load, each load repeated 6-30 times because Go's map order "
-            "is random; the merged tree is captured by a decode hook.  Non-trivial = at least two variables with a list index or a "
+            "is random; the merged tree is captured by a decode hook; the file as read by yaml.go is compared with the tree built from "
+            "the generator's logical leaves; 45 % of list-valued fields have the real shape [{id, type, config: {...}}], lists of up to "
+            "13 scalars, leading-zero indices.  Non-trivial = at least two variables with a list index or a "
             "file next to them, or file+environment+defaults together; distinct by hash of the generated input",
     "anchors": ["internal/config/parser/configloader.go", "internal/config/parser/env.go", "internal/config/parser/merge.go",
                 "internal/config/parser/yaml.go", "internal/config/configuration.go", "internal/config/default_configuration.go",
@@ -87,13 +94,19 @@ P = {
                   "`<any>`), with the disagreeing rows recorded as C20-F1 in groups a, b, c (all fixed), each with its own repair flag.  The model is tied to the code by running both on ~1200 (quick) / 30000 (thorough) generated loads per "
                   "run, now ~1000 quick (every observed outcome over 6-30 repetitions must be an outcome of the model for some iteration order) and "
                   "by replaying ~60 table-derived probes through the real schema validator and the real mechanism loader.",
-    "level_note": "Trusted: Coq kernel/vm_compute; the correspondence harness (generators, decode-hook capture of the merged tree, "
+    "level_note": "Of the 21 entries in Properties/C20.v nine are vm_compute witnesses/examples (refuted, repaired-on-witness, non-vacuity, "
+                  "split example, the two table statements), one is plumbing (in_scope_b_sound), one relates the two F4 guards; the "
+                  "general content is in the other ten.  The theorems cover names outside the syntactic C20-F4 shape; names of that shape "
+                  "whose list element exists (outside guard_F4n) are checked on every run (property must hold, all orders), not proved.  "
+                  "Trusted: Coq kernel/vm_compute; the correspondence harness (generators, decode-hook capture of the merged tree, "
                   "Gallina rendering); YAML scalar typing is an oracle (observed per case); the sha256 key suffix is modelled by its "
                   "pre-image; mapstructure decoding into the Configuration struct is not modelled (the observable is the tree handed "
                   "to the decoder); the translation of the JSON schema and of the Go config structs into the tables "
                   "(harness/tools/schema, go/ast + python) is trusted and cross-checked by the dynamic probes.  Open findings: "
-                  "C20-F1c (schema/loader disagreements inside nested option objects, found when the tables were widened; candidate "
-                  "repair fixes/C20-F1c.diff, schema only; groups a and b are fixed by 80621e4 / 6c5864d), "
+                  "C20-F1d (emptiness of three list/map options; fixes/C20-F1d.diff repairs two of the three rows, schema only), "
+                  "C20-F5 (the schema validates the file alone, so a split moving a schema-required leaf is rejected), "
+                  "C20-F6 (schema stricter than loader: duration syntax, container-level required), no small repair; "
+                  "F1a/b/c fixed by 80621e4 / 6c5864d / c343928, "
                   "C20-F4 (nested structure inside a list element stays a flat dotted key; fixes/C20-F4.diff not applicable because it "
                   "edits a repo unit test that pins the flat key).  Fixed: C20-F3 (0f39207), general theorem proved for the repaired "
                   "code; the pinned old behaviour is C20_F3_pinned_refuted.",
